@@ -66,6 +66,13 @@ type LedgerSpec struct {
 	// estimation / display; accepted only if they cannot reach any of NoPersist.
 	Scratch   map[string]string
 	NoPersist []string
+	// SubHelpers: frozen functions f(old, amount) that return old ± amount (saturating
+	// forms); `x.F = f(x.F, v)` then counts as a delta of that sign.
+	SubHelpers map[string]int
+	// OnlyPkgs restricts subjects to functions of these package prefixes.
+	OnlyPkgs []string
+	// OnlyFuncs restricts subjects to the listed function keys (anchored form).
+	OnlyFuncs []string
 	// Extra lets a property add deltas the generic extractors cannot see.
 	Extra func(P *core.Program, ff *core.FuncFacts, fn *ssa.Function) []Delta
 }
@@ -152,6 +159,23 @@ func ExtractDeltas(P *core.Program, spec *LedgerSpec, fn *ssa.Function) []Delta 
 							out = append(out, d)
 							continue
 						}
+					}
+				}
+				if call, ok := val.(*ssa.Call); ok && len(call.Common().Args) == 2 {
+					matched := false
+					for hk, sign := range spec.SubHelpers {
+						if calleeMatches(P, call, hk) {
+							if ld, ok := call.Common().Args[0].(*ssa.UnOp); ok && sameLocation(ff, ld.X, fa) {
+								d.Sign = sign
+								d.Amt = linOfArg(ff, call.Common().Args[1])
+								d.Desc = fl.Ledger + " via " + hk
+								out = append(out, d)
+								matched = true
+							}
+						}
+					}
+					if matched {
+						continue
 					}
 				}
 				d.Sign = 0
@@ -328,6 +352,28 @@ func CheckLedgers(P *core.Program, R *core.Report, spec *LedgerSpec) {
 		if core.IsGeneratedOrAux(file) {
 			continue
 		}
+		if len(spec.OnlyFuncs) > 0 {
+			in := false
+			for _, k := range spec.OnlyFuncs {
+				if k == key {
+					in = true
+				}
+			}
+			if !in {
+				continue
+			}
+		}
+		if len(spec.OnlyPkgs) > 0 {
+			in := false
+			for _, pp := range spec.OnlyPkgs {
+				if strings.HasPrefix(core.PkgRel(fn)+"/", pp) {
+					in = true
+				}
+			}
+			if !in {
+				continue
+			}
+		}
 		deltas := ExtractDeltas(P, spec, fn)
 		if spec.Extra != nil && len(deltas) > 0 {
 			deltas = append(deltas, spec.Extra(P, P.Facts(fn), fn)...)
@@ -435,6 +481,11 @@ func CheckLedgers(P *core.Program, R *core.Report, spec *LedgerSpec) {
 			ok := persisted(P, ff, d)
 			R.Add(spec.Rule+"-persist", key, d.Ledger+" → "+d.Field.Persist, P.Pos(P.InstrPos(d.Instr)), ok,
 				"the updated record must reach "+d.Field.Persist+" on every success path after the update")
+		}
+	}
+	for _, k := range spec.OnlyFuncs {
+		if P.Fn(k) == nil {
+			R.Add(spec.Rule+"-cancel", k, "anchored function", "-", false, "anchored function not found (unresolved anchor)")
 		}
 	}
 	for h := range spec.Helpers {
